@@ -180,10 +180,8 @@ func setupAddDecls(c px.Context) {
 					vals[i][0] = append(vals[i][0], m.t)
 					var f, a interface{}
 					if m.kind == mObject {
+						// (absent when the code under test fails to register them: the histories will show it)
 						f, a = entryVal(l, px.NsConstructor, m.name), entryVal(l, px.NsAllocator, m.name)
-						if f == nil || a == nil {
-							panic("declaration " + addDecls[d].label + ": object type without constructor or allocator")
-						}
 					}
 					vals[i][1] = append(vals[i][1], f)
 					vals[i][2] = append(vals[i][2], a)
